@@ -56,7 +56,7 @@ Proof. exact compat_iff. Qed.
 Print Assumptions C14_compat.
 
 (* the premise of abstracting from time in this property's model: the code it models waits, polls and gives up
-   exactly where the model says (primitive codes in Proofs/W_*.v); re-extracted from the source on every run *)
+   with exactly the kinds of primitives the model accounts for (codes in Proofs/W_*.v); re-extracted from the source on every run *)
 Require Import GV.Gen.Consts GV.Proofs.W_server GV.Proofs.W_protocol GV.Proofs.W_client.
 Theorem C14_time_abstraction : waits_server = (@cons Z 10%Z (@nil Z)) /\ waits_protocol = (@nil Z) /\ waits_client = (@nil Z).
 Proof. exact (conj w_server (conj w_protocol w_client)). Qed.
